@@ -358,9 +358,93 @@ def r23top(ctx: Ctx) -> RuleReport:
 ORDER_BREAKERS = {'sorted', 'set', 'frozenset', 'reversed', 'dict', 'shuffle', 'sample'}
 
 
+def _subst(e, env):
+    """copy of expression `e` with the names of `env` replaced by their expressions"""
+    import copy
+    class S(ast.NodeTransformer):
+        def visit_Name(self, n):
+            if isinstance(n.ctx, ast.Load) and n.id in env:
+                return copy.deepcopy(env[n.id])
+            return n
+    return S().visit(copy.deepcopy(e))
+
+
+def _loop_comprehension(ctx, fi, name: str):
+    """`acc = []` filled by one `acc.append(E)` in one `for T in IT:` loop whose body otherwise only binds locals and skips items
+    (`if C: continue` / `if C: acc.append(E)`), read as the list comprehension `[E for T in IT if ...]`; None when the shape differs"""
+    inits, appends, others = [], [], []
+    pm = ctx.repo.parent_map(fi.node)
+    for n in walk_local(fi.node):
+        if isinstance(n, (ast.Assign, ast.AnnAssign)) and n.value is not None:
+            tg = n.targets if isinstance(n, ast.Assign) else [n.target]
+            if any(isinstance(t, ast.Name) and t.id == name for t in tg):
+                inits.append(n)
+        elif isinstance(n, ast.Call) and isinstance(n.func, ast.Attribute) and isinstance(n.func.value, ast.Name) and n.func.value.id == name:
+            (appends if n.func.attr == 'append' and len(n.args) == 1 else others).append(n)
+        elif isinstance(n, (ast.AugAssign,)) and isinstance(n.target, ast.Name) and n.target.id == name:
+            others.append(n)
+    if len(inits) != 1 or len(appends) != 1 or others:
+        return None
+    iv = inits[0].value
+    if not ((isinstance(iv, ast.List) and not iv.elts) or (isinstance(iv, ast.Call) and norm(iv.func) == 'list' and not iv.args)):
+        return None
+    app = appends[0]
+    st = pm.get(id(app))
+    if not isinstance(st, ast.Expr):
+        return None
+    loop, x = None, st
+    while x is not None and x is not fi.node:
+        x = pm.get(id(x))
+        if isinstance(x, (ast.For, ast.While)):
+            loop = x
+            break
+    if not isinstance(loop, ast.For) or loop.orelse:
+        return None
+    # only one loop level between the function and the append
+    y = pm.get(id(loop))
+    while y is not None and y is not fi.node:
+        if isinstance(y, (ast.For, ast.While)):
+            return None
+        y = pm.get(id(y))
+    env, ifs, target, found = {}, [], loop.target, []
+
+    def body(stmts, conds):
+        for i, b in enumerate(stmts):
+            if b is st:
+                found.append(list(conds))
+            elif isinstance(b, ast.Assign) and len(b.targets) == 1 and isinstance(b.targets[0], ast.Name):
+                env[b.targets[0].id] = _subst(b.value, env)
+            elif isinstance(b, ast.Assign) and len(b.targets) == 1 and isinstance(b.targets[0], ast.Tuple) and isinstance(loop.target, ast.Name) \
+                    and isinstance(b.value, ast.Name) and b.value.id == loop.target.id and all(isinstance(e, ast.Name) for e in b.targets[0].elts):
+                nonlocal target
+                if not isinstance(target, ast.Name):
+                    return False
+                target = b.targets[0]
+                env[loop.target.id] = ast.Tuple(elts=[ast.Name(id=e.id, ctx=ast.Load()) for e in b.targets[0].elts], ctx=ast.Load())
+            elif isinstance(b, ast.If) and not b.orelse and len(b.body) == 1 and isinstance(b.body[0], ast.Continue):
+                conds = conds + [ast.UnaryOp(op=ast.Not(), operand=_subst(b.test, env))]
+            elif isinstance(b, ast.If) and not b.orelse:
+                if body(b.body, conds + [_subst(b.test, env)]) is False:
+                    return False
+                if not found and any(isinstance(z, (ast.Continue, ast.Break, ast.Return)) for w in b.body for z in ast.walk(w)):
+                    return False
+            else:
+                return False
+        return True
+    if body(loop.body, []) is False or len(found) != 1:
+        return None
+    comp = ast.ListComp(elt=_subst(app.args[0], env), generators=[ast.comprehension(target=target, iter=loop.iter, ifs=found[0], is_async=0)])
+    ast.copy_location(comp, loop)
+    ast.fix_missing_locations(comp)
+    return comp
+
+
 def _as_comprehension(ctx, fi, a):
     """filter(N.__contains__, S) / filter(lambda t: t in N, S) (the predicate possibly through a local name) as the generator (t for t in S if t in N)"""
     if isinstance(a, ast.Name):
+        lc = _loop_comprehension(ctx, fi, a.id)
+        if lc is not None:
+            return lc
         a = single_def(ctx, fi, a)
     if isinstance(a, ast.Call) and norm(a.func) in ('list', 'tuple') and len(a.args) == 1:
         inner = _as_comprehension(ctx, fi, a.args[0])
@@ -948,6 +1032,8 @@ def r123(ctx: Ctx) -> RuleReport:
         rep.undecided(f'{gi.fq}: self.triples is built once', gi.loc(), f'{len(stores)} stores')
         return rep
     v = stores[0].value
+    if isinstance(v, ast.Name):
+        v = _loop_comprehension(ctx, gi, v.id) or v
     key = f'{gi.fq}: every stored triple is (source, _ensure_colon(role), target)'
     if not (isinstance(v, (ast.ListComp, ast.GeneratorExp)) or (isinstance(v, ast.Call) and norm(v.func) == 'list' and v.args and isinstance(v.args[0], (ast.GeneratorExp, ast.ListComp)))):
         rep.undecided(key, gi.loc(stores[0]), norm(v)[:60])
